@@ -46,6 +46,8 @@ MANIFEST = dict(
     technique="Lean 4 proof (loop invariant, induction over iterations) + source-to-Lean translation of insert_live_point re-proved equal to the model on every run + differential correspondence with the real sampler + trace replay",
     ref="5/C01")
 
+from .core import in_box as core_in_box  # noqa: E402
+
 _T = {}
 KILL = object()
 MID_KEY = "NestedSampler.train_proposal:checkpoint_on_training:checkpoint-inside-consume_sample"
@@ -125,7 +127,11 @@ def _nessai():
             self.names = [f"x{i}" for i in range(dims)]
             self.centres = {n: 15.0 * i for i, n in enumerate(self.names)}
             self.widths = {n: 1.0 + 0.5 * i for i, n in enumerate(self.names)}
-            self.bounds = {n: [self.centres[n] - bound, self.centres[n] + bound] for n in self.names}
+            # the dictionary is written in the REVERSE of the order of `names` (legal: it is keyed by name), with unequal,
+            # overlapping-free intervals — a bounds test that pairs columns with dict values by position is then wrong
+            # (seeded change C01-eA)
+            self.bounds = {n: [self.centres[n] - bound - 0.25 * i, self.centres[n] + bound + 0.5 * i]
+                           for i, n in reversed(list(enumerate(self.names)))}
 
         def log_prior(self, x):
             lp = np.log(self.in_bounds(x).astype(float))
@@ -270,7 +276,7 @@ def oracle_step(ctx, np, model, snap, ns, case, prior_ok=True, bounds_ok=True, t
         fail("strict", f"replacement logL {float(new['logL'])} is not strictly greater than the removed {float(live0['logL'][0])}")
     if prior_ok and not np.isfinite(float(new["logP"])):
         fail("prior-finite", f"replacement has log-prior {float(new['logP'])}")
-    if bounds_ok and not bool(model.in_bounds(new)):
+    if bounds_ok and not (bool(core_in_box(model, new)) and bool(model.in_bounds(new))):
         fail("in-bounds", "replacement lies outside the prior bounds")
     if tag.endswith("(run)") and bounds_ok and np.isfinite(float(new["logL"])):
         # "a likelihood strictly greater than the removed one": the likelihood OF THE STORED POINT, not merely the number
@@ -1057,6 +1063,49 @@ def traces(ctx):
     ctx.extra["trace_wall_s"] = round(time.time() - t0, 1)
 
 
+def reopen_finished_run(ctx):
+    """a converged, finalised run whose tolerance is tightened afterwards and which is run again on the same object: it may
+    refuse, or carry on consistently — it must not draw a second live set into the same record (seeded change C01-eB: the
+    'not finalised' reset moved before the populate guard of initialise, so a whole new live set was drawn)"""
+    T = _nessai()
+    np = T["np"]
+    from nessai.flowsampler import FlowSampler
+    out = tempfile.mkdtemp(prefix="c01-reopen-")
+    case = dict(layer="reopen", nlive=50, seed=77)
+    try:
+        with contextlib.redirect_stderr(io.StringIO()):
+            model = T["Gauss"](2)
+            fs = FlowSampler(model, output=out, resume=False, nlive=50, plot=False, seed=77, maximum_uninformed=np.inf,
+                             uninformed_acceptance_threshold=0.0, signal_handling=False, checkpointing=False, stopping=0.5)
+            fs.run(plot=False, save=False)
+            ns = fs.ns
+            n0, it0 = len(ns.nested_samples), int(ns.iteration)
+            rec0 = np.array(ns.nested_samples)["logL"].copy()
+            ns.tolerance = ns.tolerance / 50.0
+            refused = None
+            try:
+                fs.run(plot=False, save=False)
+            except Exception as e:  # noqa: refusing to reopen a finalised run is fine
+                refused = type(e).__name__
+        rec1 = np.array(ns.nested_samples)["logL"]
+        if not np.array_equal(rec1[:n0], rec0):
+            ctx.oracle_fail("NestedSampler:reopen-finalised:record-rewritten", "the record of discarded points changed", case)
+        if np.any(np.diff(rec1) < 0):
+            i = int(np.argmax(np.diff(rec1) < 0))
+            ctx.oracle_fail("NestedSampler:reopen-finalised:nested-monotone",
+                            f"after tightening the tolerance of a finalised run and running again ({'refused: ' + refused if refused else 'accepted'}) "
+                            f"the discarded likelihoods decrease at record {i + 1}: {float(rec1[i])!r} -> {float(rec1[i + 1])!r} "
+                            f"({len(rec1)} records for {int(ns.iteration)} iterations, nlive 50: a second live set was drawn)", case)
+        elif len(rec1) not in (n0, int(ns.iteration) + 50, int(ns.iteration)):
+            ctx.oracle_fail("NestedSampler:reopen-finalised:recorded-once",
+                            f"{len(rec1)} records for {int(ns.iteration)} iterations and 50 live points (was {n0} for {it0})", case)
+        ctx.case(("reopen", 77), True, dict(case, refused=refused, records=[n0, len(rec1)]), kind="reopen-finalised")
+    except Exception as e:  # noqa
+        ctx.oracle_fail("run:raised", f"real run raised {type(e).__name__}: {e}", case)
+    finally:
+        shutil.rmtree(out, ignore_errors=True)
+
+
 # ---------------------------------------------------------------------------------------------- translation tie
 def gen(ctx):
     """regenerate Gen/LiveSetTx.lean: `NestedSampler.insert_live_point` translated statement by statement by
@@ -1133,6 +1182,7 @@ def correspond(ctx):
     scripted_mid(ctx)
     insert_alone(ctx)
     traces(ctx)
+    reopen_finished_run(ctx)
 
 
 def search(ctx):
